@@ -46,6 +46,13 @@ def _shards(tier):
         {"fn": "spot_tuple_mixed", "consts": {}, "timeout": 600},
         {"fn": "node_resolution", "consts": {}, "timeout": 600},
     ]
+    for t in sorted(R.INTS):
+        for shape in (("sequence", "mapping") if tier == "quick" else ("sequence", "set", "mapping", "tuple")):
+            out.append({"fn": "seq_of_int", "consts": {"type": t, "shape": shape}, "timeout": 600})
+    for ty in ("double", "float"):
+        out.append({"fn": "seq_of_double", "consts": {"ty": ty}, "timeout": 600})
+    out.append({"fn": "spot_seq_variant", "consts": {}, "timeout": 600})
+    out.append({"fn": "node_resolution_hist", "consts": {}, "timeout": 600})
     for ar in (1, 2, 3):
         out.append({"fn": "tuple_lemma", "consts": {"arity": ar}, "timeout": 600})
     return out
